@@ -29,22 +29,23 @@ claim("C02", "MIR effect analysis + edge dominance + taint",
       "from read_next / batch_read_for_topic must be edge-dominated by checkpoint==true (and start_offset==None); the offset-addressed arm is read-only by type; the returned value is "
       "non-interfering with `checkpoint` (locals-only taint). Holds for every input and schedule because it is a property of all CFG paths; it does not decide the value-level clause about "
       "offset-addressed reads returning only appended bytes.", design="4/C02")
-claim("C03", "MIR must-pass-through on CFG + def-use",
+claim("C03", "MIR must-pass-through on CFG + def-use + only-allowed-bypass",
       "Cap and budget clauses are decided for every input: pushes into the returned vector are cut off from entry and from each other when the cap/budget pass edges are removed "
-      "(must-pass-through on the MIR CFG), the constant is evaluated, and the running total's definitions are enumerated. The progress clause is explicitly not decided.", design="4/C03")
+      "(must-pass-through on the MIR CFG), the constant is evaluated, and the running total's definitions are enumerated. Of the progress clause only a structural part is decided: with nothing planned yet, the planned range is widened to the "
+      "size announced by the header at the cursor, and the branches that may bypass the widening are enumerated (C03.3); the planner arithmetic over runtime sizes is not decided.", design="4/C03, 10.1")
 claim("C14", "abstract interpretation over char partition + who-may-push",
       "Decides the property for all key strings at the level of path components: exact image of the sanitizer closure over a finite partition of char, fallback-discipline obligations, "
       "and a who-may-push rule over every PathBuf::push/Path::join in the crate with operand-origin slices.", design="4/C14")
 
-claim("C01", "MIR must-pass-through + sibling agreement of header tables + dominance",
-      "Decides three structural clauses for every input: (1) every entry a consuming read counts as consumed (cursor advance, count decrement) is handed to the caller - must-pass-through "
+claim("C01", "MIR must-pass-through + sibling agreement of header tables + dominance + only-allowed-bypass",
+      "Decides four structural clauses for every input: (1) every entry a consuming read counts as consumed (cursor advance, count decrement) is handed to the caller - must-pass-through "
       "between the per-entry counter and the push, with offset-addressed-only edges derived from the code; read_next's cursor commits are followed by the return of the entry just read; "
-      "(2) the two encoders and seven decoders agree on the header tables (symbolic expressions reconstructed from MIR); (3) every Entry construction is dominated by the checksum-equal edge. "
+      "(2) the two encoders and seven decoders agree on the header tables (symbolic expressions reconstructed from MIR); (3) every Entry construction is dominated by the checksum-equal edge; (4) the first planned range of a batch read is widened to the entry at the cursor (shared with C03.3). "
       "Ordering, once-only delivery across blocks and the planner/budget interaction are not decided.", design="4/C01")
 claim("C04", "MIR path rules over Ok/Err edges (NOEXIT, must-not-reach), error discipline",
       "Decides for all inputs and failure points the shape conditions of 'failed appends leave no trace': no exit between sealing a block and installing its successor, rejections precede "
       "every effect, publish stores are unreachable from failed writes/flushes and nothing can fail after a publish, error exits after the first effect pass rollback+unlock (infeasible exits tabled), "
-      "rollback restores the block, storage write results are not discarded, both encoders have the header-length guard, the batch flag guard is built right after the CAS. "
+      "every rollback after a write/submit is preceded by the zeroing of every planned header (loop rule), rollback restores the block, storage write results are not discarded, both encoders have the header-length guard, the batch flag guard is built right after the CAS. "
       "Known findings are listed by key in known_findings.json.", design="4/C04")
 claim("C12", "MIR who-may-call tables + finite evaluation of the readiness predicate + control dependence",
       "Decides who may delete files and request deletions, the exact readiness predicate of flush_check (evaluated over its sub-CFG on a finite abstract domain), the dominance conditions "
@@ -52,7 +53,8 @@ claim("C12", "MIR who-may-call tables + finite evaluation of the readiness predi
       design="4/C12")
 claim("C15", "MIR who-may-write + edge dominance + dataflow roles",
       "Decides the in-process clause for all inputs: writers of the count map, increments only after a successful append by exactly the appended number, decrements only under "
-      "checkpoint (and stateful) by exactly the number of parsed entries, deliveries and decrements paired by must-pass-through. The recount after restart is not decided.", design="4/C15")
+      "checkpoint (and stateful) by exactly the number of parsed entries, deliveries and decrements paired by must-pass-through. Of the recount after restart only a must-depend clause is decided (every table index and the partial-block count depend "
+      "on the persisted (block, offset) pair, by data or unshared control dependence); its arithmetic is not.", design="4/C15, 10.1")
 claim("C16", "MIR sibling agreement via symbolic expression reconstruction",
       "Decides agreement of the sibling implementations: the two entry encoders (field sources, serializer, prefix encoding, ranges, guard), the three read-range builders and exhaustive "
       "two-arm backend dispatch. Equality of results over operation sequences is not decided.", design="4/C16")
@@ -60,10 +62,11 @@ claim("C16", "MIR sibling agreement via symbolic expression reconstruction",
 claim("C05", "MIR RMW rule on slices with lock-guard provenance + truth table of the hold flag",
       "Schedules are not enumerated. The check decides, for every path, the absence of the atomicity-violation shapes that make duplicate delivery possible: a cursor commit computed "
       "from state read under another acquisition of the column lock, and a consuming stateful batch read that releases its guard between planning and commit (hold flag truth table "
-      "evaluated over its defining sub-CFG for all 8 valuations). Ordering between producers and fairness are not decided.", design="4/C05")
-claim("C09", "MIR only-allowed-bypass between commit and persist + finite evaluation + ORD",
+      "evaluated over its defining sub-CFG for all valuations of consistency - including the payload of AtLeastOnce -, checkpoint and start_offset). Ordering between producers and fairness are not decided.", design="4/C05")
+claim("C09", "MIR only-allowed-bypass between commit and persist + reaching stores + finite evaluation + ORD",
       "Decides persist-before-return for StrictlyAtOnce as a path property: from each cursor commit the persisted-index write can be bypassed only by the should_persist verdict, "
-      "checkpoint=false or a poisoned lock; should_persist's strict arm is evaluated; the batch commit closure's persist flag/target obligations; write-fsync-rename order of the index. "
+      "checkpoint=false or a poisoned lock, and every WalIndex method used to record the position persists on all of its paths; the (index, offset) pair that is packaged for the "
+      "index equals the cursor at that point (reaching-stores analysis); should_persist's strict arm is evaluated; the batch commit closure's persist flag/target obligations; write-fsync-rename order of the index. "
       "Tail ids versus recovery's synthetic ids and the AtLeastOnce redelivery bound are not decided.", design="4/C09")
 claim("C10", "MIR ordering / must-pass-through of sync calls on acknowledgement paths",
       "'Sync before acknowledging' decided on every path: SyncEach arm of the single append, flush loops of both batch paths, seal-after-flush, the call-graph link from "
@@ -73,9 +76,10 @@ claim("C17", "MIR call-graph must-reach with only-allowed-bypass + state-machine
       "Decides that a clean shutdown (Drop of Walrus) synchronously reaches the marker store's fsync+rename on all paths with a snapshot of all topic states, that appends mark dirty "
       "before anything can fail, that the marker state machine stores/loads the same atomic, and the atomic-replace protocol of the marker file.", design="4/C17")
 
-claim("C06", "MIR sibling agreement of layout tables + natural-loop exit rule",
-      "Decides two structural clauses for every input: the allocator's block layout (limit, offset step) equals the recovery scan's (limit = stride = DEFAULT_BLOCK_SIZE), and the "
-      "per-file unit loop of recovery has no exit other than its condition (an unreadable unit is skipped, never ends the scan). Cursor translation across synthetic block ids, counts "
+claim("C06", "MIR sibling agreement of layout tables + natural-loop exit and loop-bound rules",
+      "Decides three structural clauses for every input: the allocator's block layout (limit, offset step) equals the recovery scan's (limit = stride = DEFAULT_BLOCK_SIZE), and the "
+      "per-file unit loop of recovery has no exit other than its condition (an unreadable unit is skipped, never ends the scan), and the entry scan of one unit is bounded by the unit (it cannot iterate without comparing its read offset with the "
+      "stride). Cursor translation across synthetic block ids, counts "
       "after restart and clock regression are not decided.", design="4/C06")
 claim("C07", "MIR dominance along the resolved call chain + plan completeness + error-source table",
       "Ack-after-write decided on all paths from the public append APIs down to the positional write of each backend, plan completeness/element agreement in both batch paths, and that "
